@@ -130,6 +130,12 @@ CLAIMED["C14"] = dict(
     technique="TLA+ spec Inject/MCInject + TLC enumeration, replay through the real executor and templates, TLC trace validation (InjectTrace)",
 )
 
+CLAIMED["C06"] = _p("TLC enumerates, per backend, queries over every collection of that backend's table (incl. a singleton and, through metadata, a newly declared collection and "
+                    "a declaration replacing a built-in) x banks (two with different contents, one absent from every event) x one or two uses; the model store logs every "
+                    "retrieval. TLC validates rows (wrong / swapped bank or type => different rows), loud failure on a missing bank, admissible (container type, bank) "
+                    "requests, the link libraries in the rendered CMake file, and on miniAOD the tokens (declared+initialised with exactly the used tags).",
+                    "DESIGN.md section 5 C06")
+
 PENDING = "check not built yet in this round (planned, see DESIGN.md section 11); not claimed until its machinery exists"
 
 
